@@ -104,9 +104,13 @@ func TransferX(from, to, amount, details)
             bal(store, a) == old(bal(store, a)) - (a == from ? amount : 0) + (a == to ? amount : 0)
   ensures [C02] amount >= 0 && old(bal(store, from)) >= amount
 
-// Lock. Input assumptions granted by the property text: well-formed 20-byte addresses and a fresh lock address.
+// Lock. Input assumption granted by the property text: well-formed 20-byte addresses. The lock clauses (C09) hold for
+// every lock address, also one that already holds a record (somebody paid to it beforehand): the record is replaced by
+// the lock account. Conservation (C01) is claimed for fresh lock addresses only, as its quantifier grants: whatever an
+// existing record held is dropped by the replacement.
 func Lock(txDetails, from, to, amount, until)
-  requires len(from) == 20 && len(to) == 20 && from != to && !store.has(akey(to))
+  requires len(from) == 20 && len(to) == 20 && from != to
+  requires [C01] !store.has(akey(to))
   cover [C09] W(alphabet()) && amount > 0 && until > 0 && bal(store, from) >= amount
   ensures W(alphabet())
   ensures [C09] store.has(akey(to)) && acct(store, to).Balance == amount && acct(store, to).Until == until && acct(store, to).Parent == from
@@ -118,6 +122,7 @@ func Lock(txDetails, from, to, amount, until)
   ensures [C09] finding F_C09_until0 (until == 0) forall e Int {expired(store, to, e)} :: e >= until ==> expired(store, to, e)
   // ... and by no earlier one
   ensures [C09] forall e Int {expired(store, to, e)} :: e < until ==> !expired(store, to, e)
+  ensures [C01] bal(store, to) == old(bal(store, to)) + amount
 
 func NewEpoch(epochNum)
   ensures W(alphabet())
